@@ -11,7 +11,7 @@ TIE_EXTRA = {
     "ownership": {
         "gen": ["OwnershipGen.v"],
         "vo": "proofs/GenOwnership_equiv.vo",
-        "theorems": ["gen_take_ownership_equiv", "gen_take_ownership_keyerror", "gen_unique_owner_holder", "gen_call_equiv", "allocate_spec_instance", "gen_eval_preserves_existing"],
+        "theorems": ["gen_take_ownership_equiv", "gen_take_ownership_keyerror", "gen_unique_owner_holder", "gen_allocate_spec", "gen_call_equiv_full", "gen_call_runtime_error_full", "runtime_error_state_is_eval_del", "gen_eval_preserves_existing_full", "gen_fill_equiv"],
         "source": "compile/_cffi_ownership.py (allocate_taco_structure, taco_structure_to_cffi, take_ownership_of_*), "
                   "compile/_tensor_method.py (TensorMethod.__call__ from the allocation of the output), tensor.py "
                   "(Tensor.__init__, from_aos, __setstate__, __getstate__)",
